@@ -26,7 +26,7 @@ SHARDS = 16
 GRACE, SHUT = 0.4, 0.4
 HORIZON = 5.0
 
-KINDS = ["idle_keepalive", "partial_head", "inflight_short", "pipelined_behind_inflight", "inflight_long", "stuck_forever", "unread_response", "h2_open_stream",
+KINDS = ["idle_keepalive", "partial_head", "inflight_short", "pipelined_behind_inflight", "h2_two_inflight", "inflight_long", "stuck_forever", "unread_response", "h2_open_stream",
          "h2_idle", "websocket_open"]
 
 
@@ -50,13 +50,14 @@ def run_one(case, tally):
         "websocket": [["recv"], ["send", {"type": "websocket.accept"}], ["recv_until_disconnect"]],
         "by_path": {
             "/short": [["recv_until_end"], ["wait", "finish"], ["respond", 200, [(b"content-length", b"5")], b"short"]],
+            "/short2": [["recv_until_end"], ["wait", "finish2"], ["respond", 200, [(b"content-length", b"6")], b"short2"]],
             "/long": [["recv_until_end"], ["sleep", 3 * (GRACE + SHUT)], ["respond", 200, [(b"content-length", b"4")], b"long"]],
             "/stuck": [["recv_until_end"], ["wait", "never"], ["respond", 200, [], b"x"]],
             "/big": [["recv_until_end"], ["send", {"type": "http.response.start", "status": 200, "headers": []}],
                      ["send_stream", ("c15", 1), big, 65536, True]],
         },
     }
-    cfg = {"graceful_timeout": GRACE if kind not in ("inflight_short", "pipelined_behind_inflight") else 3.0, "shutdown_timeout": SHUT, "keep_alive_timeout": 30.0}
+    cfg = {"graceful_timeout": GRACE if kind not in ("inflight_short", "pipelined_behind_inflight", "h2_two_inflight") else 3.0, "shutdown_timeout": SHUT, "keep_alive_timeout": 30.0}
     if case["trigger"] == "max_requests":
         cfg["max_requests"] = 2
     h = ServeHarness(be, cfg, apps)
@@ -89,6 +90,12 @@ def run_one(case, tally):
             elif kind == "unread_response":
                 s.setsockopt(socket.SOL_SOCKET, socket.SO_RCVBUF, 4096)
                 s.sendall(b"GET /big HTTP/1.1\r\nHost: h\r\n\r\n")
+            elif kind == "h2_two_inflight":
+                fb = FrameBuilder()
+                fbs.append(fb)
+                s.sendall(client_preface(fb, {}) +
+                          fb.headers(1, [(b":method", b"GET"), (b":scheme", b"http"), (b":path", b"/short"), (b":authority", b"h")], end_stream=True) +
+                          fb.headers(3, [(b":method", b"GET"), (b":scheme", b"http"), (b":path", b"/short2"), (b":authority", b"h")], end_stream=True))
             elif kind in ("h2_open_stream", "h2_idle"):
                 fb = FrameBuilder()
                 fbs.append(fb)
@@ -101,7 +108,7 @@ def run_one(case, tally):
                 s.sendall(ws.handshake(path=b"/ws%d" % i))
                 recv_until(s, b"\r\n\r\n", timeout=1.0)
         # let the server get every request going
-        want_apps = {"inflight_short": "/short", "pipelined_behind_inflight": "/short", "inflight_long": "/long", "stuck_forever": "/stuck", "unread_response": "/big", "h2_open_stream": "/stuck"}.get(kind)
+        want_apps = {"inflight_short": "/short", "pipelined_behind_inflight": "/short", "h2_two_inflight": "/short2", "inflight_long": "/long", "stuck_forever": "/stuck", "unread_response": "/big", "h2_open_stream": "/stuck"}.get(kind)
         if want_apps:
             end = time.monotonic() + 2.0
             while time.monotonic() < end and sum(1 for e in tr.events if e[2] == "app" and e[3] == "start" and e[4]["scope"].get("path") == want_apps) < len(socks):
@@ -129,6 +136,20 @@ def run_one(case, tally):
         else:
             h.trigger_shutdown()
         t_trig = time.monotonic()
+        if kind == "h2_two_inflight":
+            time.sleep(0.2)
+            h.apps.trigger("finish")
+            time.sleep(0.3)
+            h.apps.trigger("finish2")
+            for s in socks:
+                data, eof = recv_all(s, timeout=1.5)
+                rd = FrameReader()
+                evs = rd.feed(data)
+                bodies = {}
+                for e in evs:
+                    if e["t"] == "data":
+                        bodies[e["sid"]] = bodies.get(e["sid"], b"") + e["data"]
+                seen.setdefault("short", []).append(bodies.get(1) == b"short" and bodies.get(3) == b"short2")
         if kind in ("inflight_short", "pipelined_behind_inflight"):
             time.sleep(0.2)
             h.apps.trigger("finish")
@@ -226,7 +247,7 @@ def run_one(case, tally):
         if not all(seen.get("idle_closed", [False])):
             findings.append({"clause": "idle-closed", "sig": "C15.idle-connection-kept-open/%s" % be, "backend": be,
                              "detail": "idle keep-alive connections after the trigger: closed=%r" % seen.get("idle_closed")})
-    if kind in ("inflight_short", "pipelined_behind_inflight"):
+    if kind in ("inflight_short", "pipelined_behind_inflight", "h2_two_inflight"):
         tally.clause("inflight-delivered")
         if not all(seen.get("short", [False])):
             findings.append({"clause": "inflight-delivered", "sig": "C15.inflight-truncated/%s" % be, "backend": be,
